@@ -187,3 +187,79 @@ func vC04Sequences(n int) {
 
 func Harness_C04_HostileSequences_3() { vC04Sequences(3) }
 func Harness_C04_HostileSequences_4() { vC04Sequences(4) }
+
+// Stall exploration of a session's message handler: the handler that is busy
+// with a's request is descheduled after its k-th synchronisation operation;
+// meanwhile the recipient leaves, is dropped or killed, or the realm goes
+// away; then the handler continues. Nothing panics, a bystander is served.
+func Harness_C04_HandlerStall() {
+	r := vNewRouter(&Config{RealmConfigs: []*RealmConfig{
+		{URI: "realm1", AnonymousAuth: true, EnableMetaKill: true},
+		{URI: "realm2", AnonymousAuth: true}}})
+	a := vAttach(r, "realm1", nil, 32)
+	b := vAttach(r, "realm1", nil, 32)
+	c := vAttach(r, "realm1", nil, 32)
+	other := vAttach(r, "realm2", nil, 32)
+	vAssert("attached", a != nil && b != nil && c != nil && other != nil)
+	b.send(&wamp.Register{Request: 1, Procedure: "b.proc"})
+	b.send(&wamp.Subscribe{Request: 2, Topic: "b.topic"})
+	b.drain()
+	req := vChoice("request", 3)
+	k := vChoice("stall-after", 9)
+	ev := vChoice("event", 5)
+	vStallFunc("handleInboundMessages", k)
+	sent := make(chan struct{})
+	go func() {
+		defer close(sent)
+		var m wamp.Message
+		switch req {
+		case 0:
+			m = &wamp.Publish{Request: 5, Topic: "b.topic", Options: wamp.Dict{"acknowledge": true}, Arguments: wamp.List{1}}
+		case 1:
+			m = &wamp.Call{Request: 5, Procedure: "b.proc", Options: wamp.Dict{"timeout": 200}}
+		case 2:
+			m = &wamp.Subscribe{Request: 5, Topic: "b.topic"}
+		}
+		select {
+		case a.peer.Send() <- m:
+		case <-r.stopped:
+		}
+	}()
+	vQuiesce()
+	realmGone := false
+	switch ev {
+	case 0:
+		b.send(&wamp.Goodbye{Reason: wamp.CloseRealm, Details: wamp.Dict{}})
+	case 1:
+		b.peer.Close()
+	case 2:
+		c.send(&wamp.Call{Request: 9, Procedure: wamp.MetaProcSessionKill, Arguments: wamp.List{b.id}})
+	case 3:
+		done := make(chan struct{})
+		go func() { r.RemoveRealm("realm1"); close(done) }()
+		vQuiesce()
+		vStallFunc("", 0)
+		<-done
+		realmGone = true
+	case 4:
+		done := make(chan struct{})
+		go func() { r.Close(); close(done) }()
+		vQuiesce()
+		vStallFunc("", 0)
+		<-done
+		realmGone = true
+	}
+	vQuiesce()
+	vStallFunc("", 0)
+	vQuiesce()
+	<-sent
+	for vFireTimer() {
+	}
+	vQuiesce()
+	if !realmGone {
+		vBystanderServed(r, c)
+	} else if ev == 3 {
+		vBystanderServed(r, other)
+	}
+	vCover("handler-stall-done")
+}
